@@ -51,7 +51,10 @@ func vfMakeSegments(n int) []Segment {
 	return segs
 }
 
-func vfOptions() *Options {
+func vfOptions() *Options { return vfOptionsPer(0) }
+
+// per > 0 fixes SegmentsPerMergeTask (used to keep the n = 4 case within reach)
+func vfOptionsPer(per int) *Options {
 	o := &Options{
 		MaxSegmentsPerTier:   10,
 		TierGrowth:           10.0,
@@ -66,6 +69,9 @@ func vfOptions() *Options {
 	vfAssume(o.MaxSegmentSize <= 1<<41)
 	vfAssume(o.SegmentsPerMergeTask >= 1)
 	vfAssume(o.SegmentsPerMergeTask <= 4)
+	if per > 0 {
+		o.SegmentsPerMergeTask = per
+	}
 	vfAssume(o.FloorSegmentSize >= 0)
 	vfAssume(o.FloorSegmentSize < 1<<40)
 	return o
@@ -133,14 +139,14 @@ func vfSamePlan(a, b *MergePlan) bool {
 // and score hooks, the real planner terminates and returns a well-formed plan;
 // run again on the same input (same hook answers) it returns the same plan.
 //
-// vf:harness property=C19 cases=n:0..3 cases.thorough=n:0..4 unwind=200
-// vf:bounds n segments concrete (quick 0..3, thorough 0..4); 0 <= live <= full < 2^40 symbolic; MaxSegmentSize in [2,2^41], SegmentsPerMergeTask in [1,4], floor in [0,2^40) symbolic; CalcBudget and ScoreSegments return arbitrary int / float64 (incl. NaN, Inf) on every call
+// vf:harness property=C19 cases=n:0..3;per:0 cases.thorough=n:0..3;per:0|n:4;per:2..3 unwind=200
+// vf:bounds n segments concrete (quick 0..3, thorough 0..4, where n = 4 is run with SegmentsPerMergeTask fixed at 2 and at 3); 0 <= live <= full < 2^40 symbolic; MaxSegmentSize in [2,2^41], SegmentsPerMergeTask in [1,4], floor in [0,2^40) symbolic; CalcBudget and ScoreSegments return arbitrary int / float64 (incl. NaN, Inf) on every call
 // vf:assume Options.CalcBudget and Options.ScoreSegments (documented hooks) are replaced by arbitrary-value hooks, so the default float scoring/budget code is not encoded
-func VF_C19_PlanWellFormed(n int) {
+func VF_C19_PlanWellFormed(n int, per int) {
 	h := &vfHooks
 	h.budget, h.scores, h.nb, h.ns = nil, nil, 0, 0
 	segs := vfMakeSegments(n)
-	o := vfOptions()
+	o := vfOptionsPer(per)
 	p, err := Plan(segs, o)
 	vfAssert(err == nil, "no error")
 	if n <= 1 {
